@@ -25,6 +25,9 @@ CONSTANTS Callers,      \* run-now requests
           MaxRuns,      \* bound on job function invocations explored (periodic)
           DeleteByName, \* FALSE = intended protocol (a goroutine removes only its own table entry).  TRUE = named
                         \* deviation of the pinned code: `delete(s.jobs, name)` also removes a successor's entry
+          ClaimIgnoresCancel, \* FALSE = intended protocol (the timer branch claims under stateLock and honours a
+                        \* cancellation that has already succeeded).  TRUE = named deviation of the pinned code:
+                        \* `active := TRUE` without looking at `finalised`
           DropOnClaim   \* FALSE = intended protocol.  TRUE adds the named deviation GTDrop: the
                         \* pinned code's timer branch leaving when it sees the job claimed
 
@@ -120,7 +123,10 @@ KSignal(k) ==
        ELSE /\ finalised' = TRUE
             /\ \/ closed /\ panicked' = TRUE /\ cancelCh' = cancelCh
                \/ ~closed /\ cancelCh = 0 /\ cancelCh' = 1 /\ panicked' = panicked
-    /\ kpc' = [kpc EXCEPT ![k] = "done"] /\ kres' = [kres EXCEPT ![k] = "ok"]
+    \* "won": the cancellation succeeded on a job that had not been started (history value for CancelOkNeverRuns)
+    /\ kpc' = [kpc EXCEPT ![k] = "done"]
+    /\ kres' = [kres EXCEPT ![k] = IF ~finalised /\ ~Periodic /\ runs = 0 /\ ~active /\ gpc \in {"select", "t1", "t2", "t3"}
+                                    THEN "won" ELSE "ok"]
     /\ UNCHANGED <<inTable, bInTable, bLive, active, closed, runCh, lock, gpc, runs, running, timerExpired, ctxDone, cpc, cres, took>>
 
 -----------------------------------------------------------------------------
@@ -177,7 +183,14 @@ GTDrop     == ~Periodic /\ DropOnClaim /\ gpc = "t1" /\ active /\ Skip("t1", "do
 GTDel      == ~Periodic /\ G("t2", "t3") /\ inTable' = FALSE
               /\ bInTable' = (IF DeleteByName THEN FALSE ELSE bInTable)
                /\ UNCHANGED <<bLive, active, finalised, closed, runCh, cancelCh, lock, runs, running, timerExpired, ctxDone, panicked, cpc, cres, kpc, kres, took>>
-GTClaim    == SetActive("t3", "t4", TRUE)
+\* claim: one stateLock section.  One-off job: a cancellation that has already succeeded (CancelJob took the
+\* job off the list, marked it finalised and reported success) wins: the job is finalised without running.
+\* (The periodic loop claims without the lock, as the code does.)
+GTClaim    == \/ /\ Periodic /\ SetActive("t3", "t4", TRUE)
+              \/ /\ ~Periodic /\ lock = "free" /\ (~finalised \/ ClaimIgnoresCancel) /\ SetActive("t3", "t4", TRUE)
+GTCancelled == /\ ~Periodic /\ ~ClaimIgnoresCancel /\ lock = "free" /\ finalised
+               /\ G("t3", "k1") /\ took' = "cancel"
+               /\ UNCHANGED <<inTable, bInTable, bLive, active, finalised, closed, runCh, cancelCh, lock, runs, running, timerExpired, ctxDone, panicked, cpc, cres, kpc, kres>>
 GTStart    == RunStart("t4", "t5")
 GTEnd      == RunEnd("t5", "t6")
 GTReset    == SetActive("t6", IF Periodic THEN "p0" ELSE "t7", FALSE)
@@ -195,7 +208,7 @@ GPNoMore    == Periodic /\ G("p0", "k1") /\ inTable' = FALSE /\ took' = "nomore"
 
 GNext == \/ GSelCtx \/ GSelCancel \/ GSelRun \/ GSelTimer \/ GCtxDel
          \/ GKFinalise \/ GRStart \/ GREnd \/ GRFinalise \/ GRReset
-         \/ GTCheck \/ GTWait \/ GTDrop \/ GTDel \/ GTClaim \/ GTStart \/ GTEnd \/ GTReset \/ GTFinalise
+         \/ GTCheck \/ GTWait \/ GTDrop \/ GTDel \/ GTClaim \/ GTCancelled \/ GTStart \/ GTEnd \/ GTReset \/ GTFinalise
          \/ GPKFinalise \/ GPRReset \/ GPNext \/ GPNoMore
 
 Next == \/ TimerExpire \/ CtxCancel \/ Resched
@@ -211,7 +224,7 @@ FairSpec == Spec /\ WF_vars(GNext) /\ WF_vars(TimerExpire)
 -----------------------------------------------------------------------------
 (* C02 *)
 SomeRunOk == \E c \in Callers : cres[c] = "ok"
-SomeCancelPointer == \E k \in Cancellers : kpc[k] = "p" \/ kres[k] = "ok"
+SomeCancelPointer == \E k \in Cancellers : kpc[k] = "p" \/ kres[k] \in {"ok", "won"}
 
 TypeOK == /\ runCh \in 0..1 /\ cancelCh \in 0..1 /\ running \in 0..1
           /\ lock \in {"free"} \cup Callers
@@ -230,6 +243,9 @@ NotDropped == (~Periodic /\ gpc = "done" /\ took = "none") => runs = 1
 CancelBranchNoRun == (~Periodic /\ took \in {"ctx", "cancel"}) => runs = 0
 \* a finished job's name can be scheduled again
 NameReusable == gpc = "done" => ~inTable
+\* a cancellation that succeeded on a job that had not been started means the job never runs: CancelJob()
+\* reported success, the caller may schedule a replacement under the same name
+CancelOkNeverRuns == (\E k \in Cancellers : kres[k] = "won") => runs = 0
 \* one name, one entry
 NameSlotUnique == ~(inTable /\ bInTable)
 \* a job scheduled under a re-used name stays reachable by that name until it is started or cancelled:
